@@ -399,6 +399,8 @@ func c08(c *Ctx) (*report.Result, error) {
 	checkGuardedFields(c, res, "O8.12", "proxy", 60)
 	res.RuleDoc["O8.13"] = "locks of the registries are paired: in package proxy every Lock / RLock is released on every way out of the function (Unlock on the path or a deferred one) and every Unlock releases a lock the function took"
 	checkLockPairing(c, res, "O8.13", []string{"proxy"}, 80)
+	res.RuleDoc["O8.14"] = "the registry accessors do what the incarnations rely on: every Set / Register accessor of the shard manager stores its value parameter under its key parameter on every path, every Remove / Unregister contains the delete of its key parameter (when it may run is O8.1), and the four callback setters install the handler they are given"
+	checkRegistryAccessors(c, res, "O8.14")
 	res.RuleDoc["O8.11"] = "no swallowed error in the files the mechanism lives in: no function returns a nil error on a path on which an error obtained from a call is known to be non-nil (io.EOF from a stream Recv, the normal end of a receive loop, is the one accepted idiom)"
 	checkNoSwallowedErrors(c, res, "O8.11", []string{"proxy/proxy_streams.go", "proxy/intra_proxy_router.go", "proxy/shard_manager.go"})
 	return res, nil
